@@ -26,7 +26,8 @@ def run(chk):
     chk.audit(PROPS)
     n = 150 if chk.tier == 'quick' else 5000
     kinds = ['list', 'dict', 'ns', 'value', 'counter']
-    corpus = [scen_proxycall.gen_case(__import__('random').Random(f'c14-{k}'), chk.tier, bias=k) for k in kinds]
+    corpus = scen_proxycall.boundary_cases() + [
+        scen_proxycall.gen_case(__import__('random').Random(f'c14-{k}'), chk.tier, bias=k) for k in kinds]
     results = core.e1_flow(chk, 'scen_proxycall', 'proxycall', {'C14'},
                  lambda rng: scen_proxycall.gen_case(rng, chk.tier, bias=rng.choice(['', '', 'counter', 'ns'])),
                  n, keyfn=keyfn, sched=False, engine='E4-manager-processes+lean', corpus=corpus,
